@@ -127,7 +127,10 @@ pub fn large_cfg(kind: Kind, rng: &mut Rng) -> Cfg {
 
 pub fn random_cfg(kind: Kind, rng: &mut Rng, thorough: bool) -> Cfg {
     let cfgs = small_cfgs(kind, thorough);
-    let mut c = if rng.chance(1, 40) {
+    let mut c = if cfg!(miri) {
+        // the interpreter stays with the small configurations (every op sweeps the key universe)
+        rng.pick(&cfgs).clone()
+    } else if rng.chance(1, 40) {
         large_cfg(kind, rng)
     } else if rng.chance(1, 12) {
         medium_cfg(kind, rng)
